@@ -45,7 +45,8 @@ CLAIMS = {
              "every imported name bound (I1); every module-level attribute read on an imported library module resolves (I2); no catalogue "
              "module has an import-time effect on foreign objects or global SymPy state and the name counters have a single +1 writer "
              "(I3); symbolic wrappers cannot alias through SymPy's display-string-keyed symbol cache (I4); every function symbol is applied "
-             "with its declared arity at import (I5). These are statements about all import orders / histories that one test order cannot "
+             "with its declared arity at import (I5); no .subs mapping of a catalogue module chains two plain-symbol replacements whose "
+             "order SymPy derives from generated names (I6); the counter table is process-wide (no thread-local storage). These are statements about all import orders / histories that one test order cannot "
              "give; six catalogue modules are imported by no test at all.",
         note="Does NOT decide that derivation asserts and solve(...)[k]/simplify pick the same branch under every state of the SYM<n> "
              "counters (SymPy's name-driven ordering); imports inside functions are not import-time dependencies; foreign packages are "
@@ -71,14 +72,15 @@ CLAIMS = {
         text="convert_to is decided to be the ratio value.scale_factor/target.scale_factor (exact monomial normal form) guarded by the dimension "
              "assertion on every path - composition, inversion and SI agreement then follow algebraically given C05; the SI base table is "
              "checked against SymPy's unit tables read from source (total, right dimension, SI value 1) and the product formula over "
-             "dimensional dependencies; the Celsius helpers are affine with one shared constant 273.15.",
+             "dimensional dependencies; the Celsius helpers are affine with one shared constant 273.15, keep the temperature dimension at 0 K "
+             "and are stateless (no memoisation, no stores into arguments).",
         note="Exactness of Fraction/float division and SymPy's subs inside evaluate_expression are not decided; scale factors are assumed to be SI scale factors (C05).",
         technique="monomial normal form of the return expression, CFG dominance, table check against SymPy unit sources", ref="DESIGN.md §2 C07"),
     "C09": dict(
         text="Fresh-name provenance for every constructor that creates a SymPy object (the name is next_name(<literal>) on every path, never "
              "data-dependent on display names), injectivity of (prefix, counter) -> name, single monotone writer of the counters, clone "
              "helpers forwarding dimension / both display names / subscript / assumptions (sibling cross-check), printers showing display "
-             "names. These quantify over all creation sequences because they are facts about every path of the constructors.",
+             "names; no identity override or constructor cache on the symbol classes; coordinate-system factories return a fresh object on every path. These quantify over all creation sequences because they are facts about every path of the constructors.",
         note="Trusts that SymPy treats differently named symbols as distinct under subs/solve/diff. One frozen exception (IndexedSymbol re-created "
              "from an existing SymPy symbol). One defect found and repaired (clone_as_function dropped assumptions).",
         technique="backward slices of constructor name arguments; who-may-write; sibling agreement of clone helpers", ref="DESIGN.md §2 C09"),
@@ -94,30 +96,34 @@ CLAIMS = {
         text="The five transformation tuples are read from the source and decided equal to the library's documented convention in exact normal "
              "form (angles via sine and cosine), Cartesian->curvilinear->Cartesian is the identity; the curvilinear dot/scale/magnitude "
              "formulas equal the Cartesian operation on the re-expressed components for lengths 0..3; cylindrical<->spherical falls through "
-             "to a raise; the fields' (point class, system) refusal table is complete and dominates the evaluation; rebase substitutes all "
-             "three scalars in the right direction.",
+             "to a raise; the fields' (point class, system) refusal table is complete and dominates the evaluation; Vector.rebase, "
+             "ScalarField.rebase and the fields' point evaluation are evaluated abstractly: what they hand to sympy is the table with every base "
+             "scalar replaced at once by the matching component/coordinate (0 for a missing one), also for points written in the system's own scalars.",
         note="sympy.vector.express and singular points are not decided; radial coordinates assumed non-negative.",
-        technique="formula tables read from the AST + exact algebra; CFG dominance for refusals", ref="DESIGN.md §2 C11"),
+        technique="formula tables read from the AST + exact algebra; abstract evaluation of the substitution steps; CFG dominance for refusals", ref="DESIGN.md §2 C11"),
     "C12": dict(
-        text="All 27 components of the nine closed-form operator formulas are decided equal to the orthogonal-curvilinear (Lame) reference for "
-             "GENERIC undefined fields - hence for every twice-differentiable field - in an exact differential normal form; curl(grad f)=0 "
-             "and div(curl F)=0 are decided by composing the repository's own formulas; zero padding is checked structurally.",
+        text="operators.py is evaluated abstractly for every component count 0..3 and two families of component functions (GENERIC undefined "
+             "functions of the three base scalars - hence every twice-differentiable field - and constants): every component of grad/div/curl "
+             "in the three systems equals the orthogonal-curvilinear (Lame) reference in an exact differential normal form; curl(grad f)=0 "
+             "and div(curl F)=0 are decided by composing the repository's own formulas; short fields behave as zero-padded ones.",
         note="Trusted: the Lame-coefficient form of the operators and this library's coordinate orderings (cross-checked against its own "
              "transformation table by C11/T6). Behaviour-preserving algebraic rewrites do not fire.",
-        technique="formal derivation + exact normal form of rational functions with sin^2+cos^2=1 over formulas read from the AST", ref="DESIGN.md §2 C12"),
+        technique="abstract evaluation of the operator code over generic fields + formal derivation + exact normal form of rational functions with sin^2+cos^2=1", ref="DESIGN.md §2 C12"),
     "C13": dict(
         text="Only the structural clause: the six circulation/flux routines are evaluated abstractly with a generic field value and generic "
              "parametrisations (undefined functions of t / (u, v)); every sympy.integrate call is captured and its integrand and limits are "
              "decided, in exact normal form, to be the differential forms Stokes', Green's and Gauss' theorems are about (A.dr, A.(r_u x r_v), "
              "flux of curl over the same surface, A_x y' - A_y x', div F |r_u x r_v|, div F h1h2h3 with each variable paired with its own "
-             "limits). A wrong integrand, normal orientation, area/volume element or limit pairing breaks the theorems for every field.",
+             "limits); no assumption-forcing simplification (posify, force=True) touches an integrand factor. A wrong integrand, normal "
+             "orientation, area/volume element or limit pairing breaks the theorems for every field.",
         note="NOT decided: that sympy.integrate/simplify evaluate the integrals correctly, i.e. the numerical agreement of the two sides; the "
              "theorems themselves are trusted mathematics; curl/div correctness is C12.",
         technique="abstract evaluation of the integral-building code over generic fields/parametrisations + exact normal form of captured integrands", ref="DESIGN.md §2 C13"),
     "C14": dict(
         text="The six product-rewrite rules, the repeated-operand shortcuts and the mixed-product expansion are decided as polynomial "
              "identities in the components of generic real 3-vectors (so for every assignment), the permutation-sign discipline of the three "
-             "products is checked, and every _eval_derivative equals the formal derivative for generic vector functions.",
+             "products is checked (operands ordered by object identity), operand hooks are always called with (left, right) of the product "
+             "being evaluated, and every _eval_derivative equals the formal derivative for generic vector functions.",
         note="Not decided: the multilinear expansion engine (_ordered_mul/into_terms/split_factor run SymPy's expand), termination of .diff, "
              "id()-order independence beyond the sign rule. One defect found and repaired (Binet-Cauchy term).",
         technique="rewrite rules read from branch conditions/returns, expanded to components, exact polynomial identity test", ref="DESIGN.md §2 C14"),
@@ -125,34 +131,44 @@ CLAIMS = {
         text="The twelve conversion tables and three Lame triples are decided mutually consistent: position maps commute with every scalar "
              "conversion (gives direct = via third system and round trips on the charts), base-vector tables are orthonormal rotations, "
              "inverse to each other and equal to the normalised position derivatives, Lame coefficients are the lengths of the position "
-             "derivatives; point/vector conversion wiring and the TypeError fall-through are checked. 133 obligations.",
-        note="atan2 branch/range behaviour at singular sets is not decided; inequalities are reported only with a numeric witness.",
-        technique="dict/tuple literals read into terms; exact algebra with radicals and sin/cos of atan2/acos", ref="DESIGN.md §2 C15"),
+             "derivatives; angle entries stay on one branch (direct = via the third system and A->B->A = identity entry by entry: exact modulo 2 pi, "
+             "the branch on a grid covering every sign pattern and the coordinate planes); convert_point/convert_vector are evaluated abstractly "
+             "against these tables for all nine ordered pairs (coordinates inserted at once); TypeError fall-through.",
+        note="Behaviour ON the singular sets (z axis, origin, azimuth cut) is not decided; inequalities are reported only with a numeric witness "
+             "computed on the terms read from the source.",
+        technique="dict/tuple literals (through helpers, Mod, Piecewise) read into terms; exact algebra with radicals and sin/cos of atan2/acos; "
+                  "abstract evaluation of convert.py", ref="DESIGN.md §2 C15"),
     "C16": dict(
         text="Refusals by CFG dominance; the rearrangement formula is decided in a finite-sum abstraction: for every length 1..4 and every "
              "position of the unknown, with generic vectors and coefficients, the returned equation satisfies lhs - rhs = expr/scale (or "
-             "-expr), i.e. it is equivalent to the input for all coefficient values.",
+             "-expr), i.e. it is equivalent to the input for all coefficient values; solve_for_scalar never disables SymPy's verification of "
+             "solutions; is_vector_expr refuses products of two or more vectors.",
         note="Assumes into_terms/split_factor return the (vector, coefficient) decomposition; solve_for_scalar's solver and vector_equals' simplify are trusted.",
         technique="CFG dominance + abstract evaluation of the formula tail over generic coefficients + exact normal form", ref="DESIGN.md §2 C16"),
     "C18": dict(
-        text="Only the well-formedness clause: by induction over the custom LaTeX printer, every emitted template (26) and every display_latex/"
-             "subscript literal embedded verbatim (870+) is brace- and \\left/\\right-balanced, so concatenations of balanced sub-results stay balanced.",
-        note="Meaning preservation is NOT claimed (depends on SymPy predicates over run-time trees); SymPy's own LatexPrinter is trusted to be balanced.",
+        text="The well-formedness clause: by induction over the custom LaTeX printer, every emitted template (26) and every display_latex/"
+             "subscript literal embedded verbatim (870+) is brace- and \\left/\\right-balanced, and LaTeX strings are only composed, never cut, "
+             "so concatenations of balanced sub-results stay balanced. Plus three necessary conditions of the value clause that are visible in "
+             "the code: an outer exponent passed to a printer method is used on every path, numbers are never rounded/re-formatted, no f-string "
+             "emits an unsubstituted {placeholder}.",
+        note="Meaning preservation as a whole is NOT claimed (depends on SymPy predicates over run-time trees); SymPy's own LatexPrinter is trusted to be balanced.",
         technique="template extraction from f-strings/%-formats/literals + balance check (structural induction)", ref="DESIGN.md §2 C18"),
     "C19": dict(
         text="The suite never runs the generator. Decided statically over all ~735 documented modules and the generator's own code: exec-compatibility "
              "of the kept prefix under exec(code, {}, context), no __future__ imports, page uniqueness, placeholder discipline, resolvability "
              "of every :symbols:/:quantity_notation: role, absence of order-visible iteration over unordered collections, pairing of the "
-             "evaluation disable/reset nodes and the value reset restores.",
+             "evaluation disable/reset nodes and the value reset restores, the role resolvers' registration admitting every Symbol/Quantity, and "
+             "no unsubstituted {placeholder} in the generator's f-strings.",
         note="Does not decide that Sphinx/exec/printing actually succeed on every module. The kept-prefix rule is a replica of the patcher's; "
              "anchors in patch.py are checked (ANALYSIS-ERROR when they change). One defect found and repaired (hash-seed dependent role resolution).",
         technique="scope analysis of module-level nested scopes, table checks, unordered-iteration dataflow, insertion pairing on the CFG", ref="DESIGN.md §2 C19"),
     "C20": dict(
         text="Finite table decided exhaustively: all 27 constants are folded from their source expressions over SymPy's unit tables "
              "(parsed from SymPy's source) to an SI value and a dimension vector and compared with a CODATA-2018/IAU reference table at "
-             "the precision each literal states; the seven identities of the property are evaluated on the folded values.",
+             "the precision each literal states; the seven identities of the property are evaluated on the folded values; the unit system's "
+             "per-quantity tables are written only by Quantity.__init__ for self (who-may-call) and quantity names come from one process-wide counter.",
         note="Reference table and tolerances are hard-coded in sa/rules/c20.py; corruption below the stated precision is invisible.",
-        technique="static constant folding over unit tables read from source", ref="DESIGN.md §2 C20"),
+        technique="static constant folding over unit tables read from source; who-may-call scan of the unit-system setters", ref="DESIGN.md §2 C20"),
 }
 
 NA_REASONS = {
